@@ -296,7 +296,7 @@ pub fn finish(ctx: &Ctx, rep: Report, meta: Meta) -> i32 {
             .iter()
             .find(|f| f.property == ctx.id && f.key == *key && f.status == "known");
         if let Some(k) = k {
-            println!("KNOWN-FINDING: property={} {} [{}]", ctx.id, k.what, key);
+            crate::util::out_line(&format!("KNOWN-FINDING: property={} {} [{}]", ctx.id, k.what, key));
             known_matched.push(json!({"key": key, "what": k.what, "observed": v.count}));
         } else {
             let fname = format!("{}-{:016x}.json", ctx.id, crate::util::rng::hash_str(key));
@@ -312,7 +312,7 @@ pub fn finish(ctx: &Ctx, rep: Report, meta: Meta) -> i32 {
                 "witness": v.witness,
             });
             let _ = std::fs::write(&path, serde_json::to_vec_pretty(&w).unwrap());
-            println!("VIOLATION property={} replay={}", ctx.id, path.display());
+            crate::util::out_line(&format!("VIOLATION property={} replay={}", ctx.id, path.display()));
             eprintln!("  class {}: {} ({} occurrence(s))", key, v.what, v.count);
             new_violations.push(json!({"key": key, "what": v.what, "replay": path.display().to_string(), "occurrences": v.count}));
         }
